@@ -523,6 +523,8 @@ def fused_map(ctx):
                         r0 = simp(p.env.get('_0'))
                         if em:
                             res.add(em)
+                        elif r0 and r0[0] == 'errof' and ('::ok_or_else' in str(r0[1])[:400] or '::ok_or\'' in str(r0[1])[:400]):
+                            res.add(('<fallback>',))     # `table(op).ok_or_else(|| error)?`: no fused form for this operator / scope
                         elif r0 and r0[0] == 'errof':
                             continue    # an error propagated from a callee (range check, pool full): not a selection outcome
                         else:
